@@ -93,7 +93,8 @@ def value_path(ctx: Ctx) -> None:
                     ctx.distinct((kind, ser, th, type(v).__name__, len(repr(v)) > th))
                     if got != v or type(got) is not type(v):
                         ctx.report(f"result-differs[{kind}]:{ser}", f"[{kind}/{ser}, threshold {th}] result read back {repr(got)[:60]} != returned {repr(v)[:60]}", {"backend": kind, "serializer": ser, "value": repr(v)[:80]})
-                for name, args in gen_excs():
+                # last: a PynencError subclass defined only when its body runs, after other failures have been read back
+                for name, args in gen_excs() + [(f"Late:{kind}{ser}{th}", ("tenant-7", 3))]:
                     inv = raiser(name, list(args))
                     inject_status(app, inv.invocation_id, S.PENDING, "rV", 0)
                     try:
